@@ -45,13 +45,17 @@ def _env_expr(p, name):
 
 
 def r1_r2_radial(repo: Repo, rep):
-    R1 = rep.rule("R-C11-1", "radial variate of disc / ball sampling is U^(1/dim) * radius", floor=2,
+    import re
+    from ..absdom.symtensor import reduce_squares
+    from .c01 import _prim_atom
+    R1 = rep.rule("R-C11-1", "radial variate of disc / ball sampling is U^(1/dim) * radius (|p - c|^2 == r^2 U^(2/dim))", floor=2,
                   why="any other exponent concentrates the points at the centre or the rim")
-    R2 = rep.rule("R-C11-2", "azimuth is 2*pi*U; the polar angle of (surface) sphere sampling is arccos(2U - 1) - pi/2", floor=5,
-                  why="a uniform polar angle clusters points at the poles")
+    R2 = rep.rule("R-C11-2", "azimuth is 2*pi*U; the polar angle of (surface) sphere sampling is arccos(2U - 1) - pi/2; independent uniforms", floor=4,
+                  why="a uniform polar angle clusters points at the poles; a shared uniform couples radius and angle")
     specs = [("domain2D.circle", "Circle", 2, True), ("domain3D.sphere", "Sphere", 3, True), ("domain2D.circle", "CircleBoundary", 2, False), ("domain3D.sphere", "SphereBoundary", 3, False)]
     for mod, cname, dim, radial in specs:
         ci = repo.cls(f"{DOM}.{mod}.{cname}")
+        dci = _domain_class_of(repo, ci)
         fi = ci.methods.get("sample_random_uniform")
         if fi is None:
             raise AnalysisError(f"{cname}.sample_random_uniform vanished")
@@ -59,57 +63,52 @@ def r1_r2_radial(repo: Repo, rep):
         for p in paths(fi.node):
             if p.ret is RAISE or p.ret is None:
                 continue
-            ev = SymEval(_rand_atom())
+            r = p.ret
+            val = r.args[0] if isinstance(r, ast.Call) and attr_chain(r.func) == "Points" and r.args else r
+            val = expand_helpers(repo, ci, val, domain_cls=dci, accept=lambda f: f.name.startswith("_compute_center"))
+            ev = SymEval(_prim_atom(dim))
+            try:
+                v = ev.ev(val)
+                if not (isinstance(v, Vec) and len(v) == dim):
+                    rep.undecided(R1 if radial else R2, fi.site(p.ret_node), fi.fq, f"{dim}-vector per row", repr(v)[:80])
+                    break
+                c = Vec([RF.atom(f"c.{k}") for k in range(dim)])
+                d = binop("-", v, c)
+                sq = RF.const(0)
+                for x in d.c:
+                    sq = sq + x * x
+                sq = reduce_squares(sq, ev)
+            except (NotSym, NotPoly) as err:
+                rep.undecided(R1 if radial else R2, fi.site(p.ret_node), fi.fq, "sampled point evaluable", str(err))
+                break
+            uniforms = sorted(set(ev.fresh.values()))
+            rad = RF.atom("r")
+            used_radial = None
             if radial:
-                r = _env_expr(p, "r")
-                if r is None:
-                    rep.undecided(R1, fi.site(), fi.fq, "radial variate `r`", "no such local: construction replaced")
-                else:
-                    try:
-                        v = ev.ev(expand_helpers(repo, ci, r))
-                        us = sorted(a for a in v.atoms() if a.startswith("U"))
-                        ok = len(us) == 1 and v == RF.atom(us[0], Fraction(1, dim)) * RF.atom("r")
-                        rep.check(R1, ok, fi.site(), fi.fq, f"r = U^(1/{dim}) * radius", f"r = {v!r}", f"r = {v!r}")
-                    except (NotSym, NotPoly, AttributeError) as err:
-                        rep.undecided(R1, fi.site(), fi.fq, "radial variate evaluable", str(err))
-            phi = _env_expr(p, "phi")
-            if phi is None:
-                rep.undecided(R2, fi.site(), fi.fq, "azimuth `phi`", "no such local")
-            else:
-                try:
-                    v = ev.ev(phi)
-                    us = sorted(a for a in v.atoms() if a.startswith("U"))
-                    ok = len(us) == 1 and v == RF.const(2) * PI * RF.atom(us[0])
-                    rep.check(R2, ok, fi.site(), fi.fq, "phi = 2*pi*U", f"phi = {v!r}", f"phi = {v!r}")
-                except (NotSym, NotPoly, AttributeError) as err:
-                    rep.undecided(R2, fi.site(), fi.fq, "azimuth evaluable", str(err))
-            if dim == 3:
-                th = _env_expr(p, "theta")
-                if th is None:
-                    rep.undecided(R2, fi.site(), fi.fq, "polar angle `theta`", "no such local")
-                else:
-                    try:
-                        v = ev.ev(th)
-                        # v = arccos[2U-1] - pi/2
-                        acs = sorted(a for a in v.atoms() if a.startswith("arccos["))
-                        ok = False
-                        if len(acs) == 1:
-                            inner = acs[0][7:-1]
-                            us = [a for a in (ev.fresh.values())]
-                            ok = (v == RF.atom(acs[0]) - PI / RF.const(2)) and any(inner == repr(RF.const(2) * RF.atom(u) - RF.const(1)) for u in us)
-                        rep.check(R2, ok, fi.site(), fi.fq, "theta = arccos(2U - 1) - pi/2", f"theta = {v!r}", f"theta = {v!r}")
-                    except (NotSym, NotPoly, AttributeError) as err:
-                        rep.undecided(R2, fi.site(), fi.fq, "polar angle evaluable", str(err))
-            # independent uniforms
-            rands = {}
-            for e in p.events:
-                if e.value is None:
-                    continue
-                for c in ast.walk(e.value):
-                    if isinstance(c, ast.Call) and attr_chain(c.func) == "torch.rand":
-                        rands[def_id(c) or id(c)] = c
-            need = (1 if radial else 0) + (2 if dim == 3 else 1)
-            rep.check(R2, len(rands) >= need, fi.site(), fi.fq, f"{need} independent uniform draws (radius / azimuth / polar angle)", f"{len(rands)} torch.rand evaluations", f"{len(rands)} draws")
+                ok = False
+                for u in uniforms:
+                    if sq == rad * rad * RF.atom(u, Fraction(2, dim)):
+                        ok, used_radial = True, u
+                rep.check(R1, ok, fi.site(p.ret_node), fi.fq, f"|p - c|^2 == r^2 * U^(2/{dim})", f"|p - c|^2 = {sq!r}"[:200], f"{sq!r}"[:160])
+            # trigonometric arguments
+            args = set()
+            for x in d.c:
+                for a in x.atoms():
+                    m = re.match(r"^(cos|sin)\[(.*)\]$", a)
+                    if m:
+                        args.add(m.group(2))
+            az = {repr(RF.const(2) * PI * RF.atom(u)): u for u in uniforms}
+            pol = {repr(RF.atom(f"arccos[{(RF.const(2) * RF.atom(u) - RF.const(1))!r}]") - PI / RF.const(2)): u for u in uniforms}
+            used_az = [az[a] for a in args if a in az]
+            used_pol = [pol[a] for a in args if a in pol]
+            foreign = sorted(a for a in args if a not in az and a not in pol)
+            want_pol = 1 if dim == 3 else 0
+            ok = len(set(used_az)) == 1 and len(set(used_pol)) == want_pol and not foreign
+            distinct = len({u for u in [used_radial] + used_az + used_pol if u}) == (1 if radial else 0) + 1 + want_pol
+            rep.check(R2, ok and distinct, fi.site(p.ret_node), fi.fq,
+                      "angles: azimuth 2*pi*U" + (", polar arccos(2U-1) - pi/2" if dim == 3 else "") + ", each from its own uniform draw",
+                      f"trig arguments {sorted(args)}; uniforms radial={used_radial} azimuth={used_az} polar={used_pol}"[:260], f"{sorted(args)}"[:200])
+            break
 
 
 def r3_arclength(repo: Repo, rep):
@@ -193,9 +192,13 @@ def r3_arclength(repo: Repo, rep):
         # one step of the walk
         pts, loc = sc.params[3], sc.params[4]
         d_, s_ = sc.params[1], sc.params[2]
-        src = ast.unparse(sc.node).replace(" ", "")
-        ok = f"torch.clamp({loc}/{s_},min=0,max=1)" in src and f"{pts}+=scale*{d_}[:,None]" in src and f"{loc}-={s_}" in src
-        rep.check(R, ok, sc.site(), sc.fq, "walk step: points += clamp(location/len, 0, 1) * dir; location -= len", src[-160:], "walk step")
+        for q in paths(sc.node):
+            augs = {dump(e.node.target): (e.op, dump(e.value).replace(" ", "")) for e in q.events if e.kind == "aug" and isinstance(e.node, ast.AugAssign)}
+            clamp = f"torch.clamp({loc}/{s_},min=0,max=1)"
+            okp = augs.get(pts, (None, ""))[0] == "Add" and augs[pts][1] in (f"{clamp}*{d_}[:,None]", f"{d_}[:,None]*{clamp}")
+            okl = augs.get(loc) == ("Sub", s_)
+            rep.check(R, okp and okl, sc.site(), sc.fq, "walk step: points += clamp(location/len, 0, 1) * dir; location -= len", str(augs)[:200], str(sorted(augs.items()))[:200])
+            break
     ib = repo.cls(f"{DOM}.domain1D.interval.IntervalBoundary")
     fi = ib.methods.get("sample_random_uniform")
     rep.saw(fi)
@@ -289,8 +292,11 @@ def r5_r6_mixtures(repo: Repo, rep):
         rep.saw(fi)
         found = False
         for p in paths(fi.node):
-            f = p.env.get("filter_")
-            if f is None:
+            f = None
+            if isinstance(p.ret, ast.Tuple) and len(p.ret.elts) == 3 and isinstance(p.ret.elts[1], ast.Subscript):
+                sl = p.ret.elts[1].slice
+                f = sl.elts[0] if isinstance(sl, ast.Tuple) else sl
+            if f is None or not isinstance(f, ast.Compare):
                 continue
             found = True
             ok = False
